@@ -43,7 +43,7 @@ def BOUNDS(tier):
 
 
 ITEMS = ["NeoHooke", "OgdenRoxburgh", "tt-OgdenRoxburgh", "plasticity", "tt-visco"]
-RAMPED = ["boundary", "pressure", "pointload", "formitem"]
+RAMPED = ["boundary", "pressure", "pointload", "formitem", "bodyforce", "gravity"]  # (bodyforce / gravity: created with INTEGER zeros, ramped with floats)
 
 
 def plan(tier, seed):
@@ -406,6 +406,12 @@ def run_ramped(case):
             elif ramped == "pointload":
                 load = fem.PointLoad(field, [int(np.where(np.all(mesh.points == 1, axis=1))[0][0])])
                 get = lambda: load.values  # noqa
+            elif ramped == "bodyforce":
+                load = fem.SolidBodyForce(field, values=[0, 0, 0], scale=10.0)
+                get = lambda: np.asarray(load.results.values, dtype=float)  # noqa
+            elif ramped == "gravity":
+                load = fem.SolidBodyGravity(field, gravity=[0, 0, 0], density=10.0)
+                get = lambda: np.asarray(load.results.gravity, dtype=float)  # noqa
             else:
                 @fem.Form(v=field)
                 def L():
@@ -413,7 +419,7 @@ def run_ramped(case):
 
                 load = fem.FormItem(linearform=L, kwargs={"amplitude": 0.0})
                 get = lambda: float(load.kwargs["amplitude"])  # noqa
-            rv = [np.array([v, 0.0, 0.0]) for v in vals] if ramped == "pointload" else vals
+            rv = [np.array([v, 0.0, 0.0]) for v in vals] if ramped in ("pointload", "bodyforce", "gravity") else vals
             if split is None:
                 steps = [fem.Step([body, load], ramp={load: rv}, boundaries=bounds)]
             else:
